@@ -22,8 +22,9 @@ REGION_HASH = 'C09-hash-comment'  # `#` outside quotes starts a comment (shlex d
 REGION_USPACE = 'C09-unicode-space'  # characters that are str.isspace() but no argument separator
 REGION_MIXED = 'C09-concat-quote-type'  # quote type of a concatenated token = that of its first character
 
-STUB_IO = ('io.StringIO as seen by token_stream -> vsym.stubs.SymStringIO (pure Python; read/readline/tell/seek on '
-           'character offsets, no newline translation)')
+STUB_IO = ('io.StringIO as seen by token_stream -> harness._C09_io.CharsStringIO = vsym.stubs.SymStringIO (pure Python; '
+           'read/readline/tell/seek on character offsets, no newline translation); read(1) on a text built by the harness '
+           'returns the character object the text was built from')
 
 
 def _in_alphabet(s: str, alphabet: str) -> bool:
@@ -34,8 +35,8 @@ def _in_alphabet(s: str, alphabet: str) -> bool:
 
 
 def _install_io():
-    from vsym import stubs
-    stubs.install_token_stream_io()
+    from harness import _C09_io
+    _C09_io.install()
 
 
 # =========================================================================== K1  tokenizer
@@ -173,13 +174,15 @@ def _k1_obligations(tier: str) -> List[Ob]:
     for n in range(0, maxlen + 1):
         nsplit = 0 if n < 4 else n - 3  # case split on the classes of the first n-3 characters
         for combo in itertools.product(K1_CLASSES, repeat=nsplit):
+            if tier == 'quick' and n == 4 and combo[0][0] not in ('dq', 'sq'):
+                continue  # quick: length 4 only for texts that start with a quote
             obs.append(Ob(
                 name='K1:len%d%s' % (n, ''.join('-' + nm for nm, _ in combo)),
                 fn='k1_tokens', case=dict(len=n, prefix=tuple(al for _, al in combo)), kernel='K1',
                 bound='every source text of exactly %d characters over {a, @, space, ", \', #, newline, backslash}%s: '
                       'all tokens consumed until null / syntax error' % (
                           n, ''.join(', character %d in %r' % (i + 1, al) for i, (_, al) in enumerate(combo))),
-                timeout=600, real=REAL_K1, stubs=(STUB_IO,),
+                timeout=900, real=REAL_K1, stubs=(STUB_IO,),
                 outside=('characters outside the stated alphabet (tab, CR and other separators; other letters are '
                          'equivalent to `a` for the tokenizer only by inspection of shlex)',),
                 entry='TokenStream(source) / new_token_parser(source)'))
@@ -267,6 +270,22 @@ def _fill(mask: str, h: str) -> str:
     return r
 
 
+def _text(mask: str, h: str) -> str:
+    """_fill, and the characters of the text are registered with the StringIO stand-in"""
+    from harness import _C09_io
+    s = _fill(mask, h)
+    chars = []
+    k = 0
+    for m in mask:
+        if m in HOLES:
+            chars.append(h[k])
+            k += 1
+        else:
+            chars.append(m)
+    _C09_io.register(s, chars)
+    return s
+
+
 def _mask_bound(mask: str) -> str:
     used = [h for h in HOLES if h in mask]
     return 'every text matching the mask %r where %s' % (
@@ -290,6 +309,32 @@ def _mask_name(mask: str) -> str:
 
 def _numbered(prefix: str, masks):
     return [('%s%02d-%s' % (prefix, i + 1, _mask_name(m) or 'empty'), m) for i, m in enumerate(masks)]
+
+
+def _mask_obs(tier: str, prefix: str, quick, thorough, fn: str, kernel: str, real, entry: str,
+              stubs=(), outside=(), bound_suffix: str = '', timeout: float = 900) -> List[Ob]:
+    """One obligation per mask; an entry is a mask or (mask, extra case parameters).  The numbering runs over
+    quick + thorough, so the names of the quick obligations are the same in both tiers."""
+    obs = []
+    entries = list(quick) + list(thorough)
+    n_quick = len(quick)
+    for i, e in enumerate(entries):
+        if tier == 'quick' and i >= n_quick:
+            break
+        m, extra = (e, {}) if isinstance(e, str) else e
+        case = dict(mask=m)
+        case.update(extra)
+        tag = ''.join('-%s%s' % (k[:3], ''.join(str(x) for x in v) if isinstance(v, tuple) else v)
+                      for k, v in sorted(extra.items()))
+        if 'symvalues' in extra:
+            b = _mask_bound(m) + _symvalues_bound(extra['symvalues'])
+        else:
+            b = _mask_bound(m) + bound_suffix
+        if 'entry' in extra:
+            b += '; parser entry: ' + extra['entry']
+        obs.append(Ob(name='%s%02d-%s%s' % (prefix, i + 1, _mask_name(m) or 'empty', tag), fn=fn, case=case,
+                      kernel=kernel, bound=b, timeout=timeout, real=real, stubs=stubs, outside=outside, entry=entry))
+    return obs
 
 
 # =========================================================================== K2  symbol-reference fragments
@@ -415,28 +460,21 @@ def k2_forms(h: str) -> bool:
 
 def _k2_obligations(tier: str) -> List[Ob]:
     obs = []
-    masks = ['', '%', '%%', '%%%', '%%%%', '%%%%%',
-             '%@[%]@%', '@[%]@%@[%]@', '@[a]@%%@[a]@', '@[%%]@%']
-    if tier == 'thorough':
-        masks += ['%%%%%%', '%%%%%%%', '@[%%@[%%]@', '%@[%%]@%%', '@[%]@[%]@%', '%%@[a]@%%']
-    for nm, m in _numbered('K2:split:', masks):
-        obs.append(Ob(
-            name=nm, fn='k2_split', case=dict(mask=m), kernel='K2',
-            bound=_mask_bound(m), timeout=900 if len(m) < 7 else 2400, real=REAL_K2, entry='symbol_syntax.split'))
-    umasks = [4, 5] if tier == 'quick' else [4, 5, 6]
-    for n in umasks:
+    obs += _mask_obs(tier, 'K2:split:',
+                     ['', '%', '%%', '%%%', '%%%%', '%%%%%', '%@[%]@%', '@[%]@%@[%]@', '@[a]@%%@[a]@', '@[%%]@%',
+                      '@[%@[%]@'],
+                     ['%%%%%%', '%%%%%%%', '@[%%@[%%]@', '%@[%%]@%%', '@[%]@[%]@%', '%%@[a]@%%', '@[%]@@[%]@%'],
+                     fn='k2_split', kernel='K2', real=REAL_K2, entry='symbol_syntax.split', timeout=2400)
+    for n in ([4, 5] if tier == 'quick' else [4, 5, 6]):
         obs.append(Ob(
             name='K2:split:u-len%d' % n, fn='k2_split', case=dict(len=n, alphabet=K2_ALPHABET_U), kernel='K2',
             bound='every token text of exactly %d characters over {@, [, ], e-acute, space, 1}' % n,
             timeout=900, real=REAL_K2, entry='symbol_syntax.split'))
-    fmasks = ['', '%', '%%', '%%%', '%%%%', '@[%]@', '@[%%]@', '%@[a]@', '@[a]@%']
-    if tier == 'thorough':
-        fmasks += ['%%%%%', '@[%%%]@', '%@[%]@%']
-    for nm, m in _numbered('K2:forms:', fmasks):
-        obs.append(Ob(
-            name=nm, fn='k2_forms', case=dict(mask=m), kernel='K2',
-            bound=_mask_bound(m) + '; as naked, soft-quoted and hard-quoted token', timeout=900, real=REAL_K2F,
-            entry='parse_string.parse_fragments_from_token'))
+    obs += _mask_obs(tier, 'K2:forms:',
+                     ['', '%', '%%', '%%%', '%%%%', '@[%]@', '@[%%]@', '%@[a]@', '@[a]@%'],
+                     ['%%%%%', '@[%%%]@', '%@[%]@%'],
+                     fn='k2_forms', kernel='K2', real=REAL_K2F, entry='parse_string.parse_fragments_from_token',
+                     bound_suffix='; as naked, soft-quoted and hard-quoted token')
     obs.append(Ob(name='K2:split:seeded-oracle-error', fn='k2_split', case=dict(mask='@[%]@', oracle_bug=True),
                   kernel='K2', bound='seeded oracle error: `-` may be part of a symbol name', timeout=300,
                   expect=ob.REFUTE, real=REAL_K2))
@@ -539,25 +577,42 @@ def _value_of_pieces(pieces, values) -> str:
 
 def _sdv_agrees(sdv, pieces, va: str, vb: str) -> bool:
     """the real StringSdv has the documented fragments and reports exactly their references; with
-    case['values'] its resolved value (symbols A, B, L defined with symbolic values) is compared too"""
+    and, when only A, B, L are referenced, resolves to the documented value"""
     if _pieces_of_sdv(sdv) != pieces:
         return False
     names = _names_of_pieces(pieces)
     if [r.name for r in sdv.references] != names:
         return False
-    if ob.case().get('values') and _names_defined(names):
-        got = sdv.resolve(_symbol_table(va, vb)).value_when_no_dir_dependencies()
-        if got != _value_of_pieces(pieces, _string_values(va, vb)):
+    if _names_defined(names):
+        a, b = _values(va, vb)
+        got = sdv.resolve(_symbol_table(a, b)).value_when_no_dir_dependencies()
+        if got != _value_of_pieces(pieces, _string_values(a, b)):
             return False
     return True
 
 
+CONCRETE_VALUES = ('x', 'y z')
+
+
 def _values_ok(va: str, vb: str) -> bool:
-    c = ob.case()
-    # lengths of the symbol values (case); the characters are free.  No reference can occur: no values.
-    la, lb = c.get('vlen', (1, 1) if '@' in c['mask'] or '@' in ''.join(HOLES[m] for m in c['mask'] if m in HOLES)
-                   else (0, 0))
+    """case['symvalues'] = (len A, len B): the values of the symbols A and B are the symbolic strings va, vb of
+    these lengths (every character free).  Otherwise A = 'x', B = 'y z' and va, vb are unused (empty)."""
+    la, lb = ob.case().get('symvalues', (0, 0))
     return len(va) == la and len(vb) == lb
+
+
+def _values(va: str, vb: str):
+    if 'symvalues' in ob.case():
+        return va, vb
+    return CONCRETE_VALUES
+
+
+def _values_bound() -> str:
+    return '; symbols: A = \'x\', B = \'y z\', L = [A, B]'
+
+
+def _symvalues_bound(lens) -> str:
+    return '; symbols: A = every string of %d characters, B = every string of %d characters, L = [A, B]' % lens
 
 
 def _after_token_ok(ts, s: str, toks, err, k: int, end_prev: int) -> bool:
@@ -695,49 +750,43 @@ def k3_denote(h: str, va: str, vb: str) -> bool:
     post: _
     """
     _install_io()
-    return ob.post(_k3_check(_fill(ob.case()['mask'], h), va, vb))
+    return ob.post(_k3_check(_text(ob.case()['mask'], h), va, vb))
 
 
 K3_OUTSIDE = ('tokens in which a symbol reference is split over two adjacent fragments (e.g. `@[A"]@"`): undocumented',
               'a reserved word, `)`, backslash, `:>` or a whole symbol reference written naked with a quotation glued to '
               'it (e.g. `)""`, `=\'\'`, `@[A]@""`): whether it counts as unquoted is undocumented',
-              'symbols of type path; symbol values longer than 2 characters (values are only concatenated)')
+              'symbols of type path; symbol values other than the stated ones (values are only concatenated)')
 
 
-def _k3_masks(tier: str):
-    q = [
-        # one fragment of each form, holes inside and a following token
-        '^^^ ^', '"^^" ^', "'^^' ^", '^^^^',
-        # references in each form, with neighbours
-        '&@[A]@& a', '"&@[A]@&" a', "'&@[A]@&' a",
-        # adjacent fragments of different forms (quote characters pinned, contents free)
-        'a"^"^ ^', '"^"^\'^\'', "'^'\"^\"^", '^\'^\'"^"',
-        '@[A]@"&@[B]@"&', '"@[A]@"&@[B]@&', "'@[A]@'&\"@[B]@\"", "&'@[A]@'@[B]@",
-        'a&@[A]@\'&\' a', '"&"@[A]@\'&@[B]@\'',
-    ]
-    t = [
-        '^^^^^', '"^^^" ^', "'^^^' ^", '^^"^^"^', "^^'^^'^",
-        '&&@[A]@&& a', '"&@[A]@&@[B]@&"', '@[A]@&@[B]@& a',
-        '^"^"\'^\'^ ^', "'^'^\"^\"'^'", '"@[A]@"&&\'@[B]@\'&', "&'@[A]@'&\"@[B]@\"&",
-    ]
-    return q + (t if tier == 'thorough' else [])
+K3_QUICK = [
+    # one fragment of each form, holes inside and a following token
+    '^^^', '"^^" ^', "'^^' ^",
+    # references in each form, with neighbours
+    '&@[A]@& a', '"&@[A]@&" a', "'&@[A]@&' a",
+    # adjacent fragments of different forms (quote characters pinned, contents free)
+    'a"^"^ ^', '"^"^\'^\'', "'^'\"^\"^", '^\'^\'"^"',
+    '@[A]@"&@[B]@"&', '"@[A]@"&@[B]@&', "'@[A]@'&\"@[B]@\"", "&'@[A]@'@[B]@",
+    'a&@[A]@\'&\' a', '"&"@[A]@\'&@[B]@\'',
+    # the other parser entries
+    ('"&@[A]@&"a ^', dict(entry='rich')), ("^'^'@[A]@ ^", dict(entry='rich')),
+    ('@[A]@& ^', dict(entry='either')), ('"@[A]@"^^', dict(entry='either')), ('&@[A]@ ^', dict(entry='either')),
+    # symbolic symbol values
+    ('@[A]@"&@[B]@"', dict(symvalues=(1, 1))), ('"@[A]@"@[B]@&', dict(symvalues=(0, 2))),
+]
+K3_THOROUGH = [
+    '^^^ ^', '^^^^', '"^^^" ^', "'^^^' ^", '^^"^^"^', "^^'^^'^",
+    '&&@[A]@&& a', '"&@[A]@&@[B]@&"', '@[A]@&@[B]@& a',
+    '^"^"\'^\'^ ^', "'^'^\"^\"'^'", '"@[A]@"&&\'@[B]@\'&', "&'@[A]@'&\"@[B]@\"&",
+    ('@[A]@&"@[B]@"&@[L]@', dict(symvalues=(2, 1))),
+]
 
 
 def _k3_obligations(tier: str) -> List[Ob]:
-    obs = []
-    for nm, m in _numbered('K3:', _k3_masks(tier)):
-        obs.append(Ob(
-            name=nm, fn='k3_denote', case=dict(mask=m), kernel='K3',
-            bound=_mask_bound(m) + '; values of the symbols A, B: every string of 1 character',
-            timeout=900, real=REAL_K3, stubs=(STUB_IO,), outside=K3_OUTSIDE,
-            entry='parse_string.parse_string_from_token_parser(new_token_parser(source))'))
-    for i, (entry, m) in enumerate((('rich', '"&@[A]@&"a ^'), ('rich', "^'^'@[A]@ ^"), ('either', '@[A]@& ^'),
-                                    ('either', '"@[A]@"^^'), ('either', '&@[A]@ ^'))):
-        obs.append(Ob(
-            name='K3:%s%d-%s' % (entry, i + 1, _mask_name(m)), fn='k3_denote', case=dict(mask=m, entry=entry), kernel='K3',
-            bound=_mask_bound(m) + '; values of the symbols A, B: every string of 1 character',
-            timeout=900, real=REAL_K3, stubs=(STUB_IO,), outside=K3_OUTSIDE,
-            entry='RichStringParser / SymbolReferenceOrStringParser on new_token_parser(source)'))
+    obs = _mask_obs(tier, 'K3:', K3_QUICK, K3_THOROUGH, fn='k3_denote', kernel='K3', real=REAL_K3,
+                    entry='parse_string.parse_string_from_token_parser(new_token_parser(source)) '
+                          '[entry=rich: RichStringParser, entry=either: SymbolReferenceOrStringParser]',
+                    stubs=(STUB_IO,), outside=K3_OUTSIDE, bound_suffix=_values_bound())
     obs.append(Ob(name='K3:seeded-oracle-error', fn='k3_denote', case=dict(mask='"@[A]@"&', oracle_bug=True),
                   kernel='K3', bound='seeded oracle error: soft quotes protect references too', timeout=300,
                   expect=ob.REFUTE, real=REAL_K3, stubs=(STUB_IO,)))
@@ -832,28 +881,26 @@ def k4_heredoc(h: str, va: str, vb: str) -> bool:
     post: _
     """
     _install_io()
-    return ob.post(_k4_check(_fill(ob.case()['mask'], h), va, vb))
+    return ob.post(_k4_check(_text(ob.case()['mask'], h), va, vb))
 
 
-def _k4_masks(tier: str):
-    q = [
-        '<<E', '<<E~~', '<<E\n$', '<<E\n$$', '<<E\n$$$', '<<E\n$$$$',
-        '<<E\n$$\nE\n$', '<<E\n$\n$\nE', '<<E\n@[A]@$\n$E\n$',
-        '<<E~\n$\nE~$', '<<E \n"$\n$"\nE\n', '<<E\n$\n \nE\n\na',
-    ]
-    t = ['<<E\n$$$$$', '<<E\n$$\n$$\nE\n$', '<<E\n$$\n$\n$E\n$', "<<E\n'$\n$'$\nE\n$", '<<E\n$@[A]@$\n$@[B]@\nE$\nE']
-    return q + (t if tier == 'thorough' else [])
+K4_QUICK = [
+    '<<E', '<<E~~', '<<E\n$', '<<E\n$$', '<<E\n$$$',
+    '<<E\n$$\nE\n$', '<<E\n$\n$\nE', '<<E\n$@[A]@\nE',
+    '<<E~\n$\nE~$', '<<E \n"$\n$"\nE\n', '<<E\n$\n \nE\n\na', '<<E $$\nE\n',
+    ('<<E\n@[A]@$\nE', dict(symvalues=(1, 1))),
+]
+K4_THOROUGH = [
+    '<<E\n$$$$', '<<E\n@[A]@$\n$E\n$', '<<E\n$$$$$', '<<E\n$$\n$$\nE\n$', '<<E\n$$\n$\n$E\n$',
+    "<<E\n'$\n$'$\nE\n$", '<<E\n$@[A]@$\n$@[B]@\nE$\nE',
+]
 
 
 def _k4_obligations(tier: str) -> List[Ob]:
-    obs = []
-    for nm, m in _numbered('K4:', _k4_masks(tier)):
-        obs.append(Ob(
-            name=nm, fn='k4_heredoc', case=dict(mask=m), kernel='K4',
-            bound=_mask_bound(m) + '; values of the symbols A, B: every string of 1 character',
-            timeout=900, real=REAL_K4, stubs=(STUB_IO,),
-            outside=('markers other than `E`; a quoted start marker',),
-            entry='RichStringParser().parse_from_token_parser(new_token_parser(source))'))
+    obs = _mask_obs(tier, 'K4:', K4_QUICK, K4_THOROUGH, fn='k4_heredoc', kernel='K4', real=REAL_K4,
+                    entry='RichStringParser().parse_from_token_parser(new_token_parser(source))',
+                    stubs=(STUB_IO,), outside=('markers other than `E`; a quoted start marker',),
+                    bound_suffix=_values_bound())
     obs.append(Ob(name='K4:seeded-oracle-error', fn='k4_heredoc', case=dict(mask='<<E\n$$\nE', oracle_bug=True),
                   kernel='K4', bound='seeded oracle error: space around the end marker is ignored', timeout=300,
                   expect=ob.REFUTE, real=REAL_K4, stubs=(STUB_IO,)))
@@ -965,6 +1012,7 @@ def _k5_list_check(s: str, va: str, vb: str) -> bool:
         SingleInstructionInvalidArgumentException
     from exactly_lib.section_document.element_parsers.token_stream_parser import new_token_parser
     bug = bool(ob.case().get('oracle_bug'))
+    va, vb = _values(va, vb)
     want = _ref_list(s, _string_values(va, vb), {'L': [va, vb]}, bug)
     toks, err = ref.tokenize(s)
     tp = new_token_parser(s)
@@ -997,7 +1045,7 @@ def k5_list(h: str, va: str, vb: str) -> bool:
     post: _
     """
     _install_io()
-    return ob.post(_k5_list_check(_fill(ob.case()['mask'], h), va, vb))
+    return ob.post(_k5_list_check(_text(ob.case()['mask'], h), va, vb))
 
 
 def _k5_text_check(s: str, va: str, vb: str) -> bool:
@@ -1035,31 +1083,30 @@ def k5_text(h: str, va: str, vb: str) -> bool:
     post: _
     """
     _install_io()
-    return ob.post(_k5_text_check(_fill(ob.case()['mask'], h), va, vb))
+    return ob.post(_k5_text_check(_text(ob.case()['mask'], h), va, vb))
+
+
+K5L_QUICK = [
+    '!!!', 'a !\n!', 'a \\~!!', '!! )!', '"a!"!!',
+    '@[L]@ !\n!', 'a @[A]@!\\\n@[L]@ !', '~= a', '!\\!\n!', '"@[L]@"!@[L]@',
+    ('@[L]@ @[A]@!', dict(symvalues=(1, 1))),
+]
+K5L_THOROUGH = ['!!!!', 'a \\\n!!~!', '!!!!!', 'a !!\n!!', '! \\\n!! !', '@[L]@ "!@[A]@" !!']
+K5T_QUICK = [
+    ':>***', ':> *\n*', ':>~@[A]@*~', ':>*"*\n"', ' :> *a* \na',
+    (':> @[A]@*', dict(symvalues=(2, 0))),
+]
+K5T_THOROUGH = [':> **\n*', ':>~@[A]@*~*', ':>*****', ':> *@[A]@*@[B]@\n*']
 
 
 def _k5_obligations(tier: str) -> List[Ob]:
-    obs = []
-    lmasks = ['!!!', '!!!!', 'a !\n!', 'a \\~!!', '!! )!', 'a \\\n!!~!', '"a!"!!',
-              '@[L]@ !\n!', 'a @[A]@!\\\n@[L]@ !', '~= a', '!\\!\n!']
-    if tier == 'thorough':
-        lmasks += ['!!!!!', 'a !!\n!!', '! \\\n!! !', '@[L]@ "!@[A]@" !!']
-    for nm, m in _numbered('K5:list:', lmasks):
-        obs.append(Ob(
-            name=nm, fn='k5_list', case=dict(mask=m), kernel='K5',
-            bound=_mask_bound(m) + '; values of A, B: every string of 1 character; L = [A, B]',
-            timeout=900, real=REAL_K5L, stubs=(STUB_IO,),
-            outside=K3_OUTSIDE + ('a list-valued symbol referenced from a token that also has quoted fragments',),
-            entry='parse_list.parse_list_from_token_parser(new_token_parser(source))'))
-    tmasks = [':>***', ':> **\n*', ':>~@[A]@*~*', ':>*"*\n"', ' :> *a* \na']
-    if tier == 'thorough':
-        tmasks += [':>*****', ':> *@[A]@*@[B]@\n*']
-    for nm, m in _numbered('K5:text:', tmasks):
-        obs.append(Ob(
-            name=nm, fn='k5_text', case=dict(mask=m), kernel='K5',
-            bound=_mask_bound(m) + '; values of A, B: every string of 1 character',
-            timeout=900, real=REAL_K5T, stubs=(STUB_IO,),
-            entry='RichStringParser().parse_from_token_parser(new_token_parser(source))'))
+    obs = _mask_obs(tier, 'K5:list:', K5L_QUICK, K5L_THOROUGH, fn='k5_list', kernel='K5', real=REAL_K5L,
+                    entry='parse_list.parse_list_from_token_parser(new_token_parser(source))', stubs=(STUB_IO,),
+                    outside=K3_OUTSIDE + ('a list-valued symbol referenced from a token that also has quoted fragments',),
+                    bound_suffix=_values_bound())
+    obs += _mask_obs(tier, 'K5:text:', K5T_QUICK, K5T_THOROUGH, fn='k5_text', kernel='K5', real=REAL_K5T,
+                     entry='RichStringParser().parse_from_token_parser(new_token_parser(source))', stubs=(STUB_IO,),
+                     bound_suffix=_values_bound())
     obs.append(Ob(name='K5:list:seeded-oracle-error', fn='k5_list', case=dict(mask='a \\\n!', oracle_bug=True),
                   kernel='K5', bound='seeded oracle error: a backslash at end of line is an ordinary element',
                   timeout=300, expect=ob.REFUTE, real=REAL_K5L, stubs=(STUB_IO,)))
@@ -1079,6 +1126,83 @@ def obligations(tier: str) -> List[Ob]:
     obs += _k4_obligations(tier)
     obs += _k5_obligations(tier)
     return obs
+
+
+# =========================================================================== self-test (concrete; not the deciding step)
+
+def selftest(tier: str) -> int:
+    """Concrete comparison of the stand-ins and reference oracles with the real thing (real io.StringIO):
+    raises on mismatch, returns the number of cases compared."""
+    import itertools
+    import re
+    from vsym import stubs
+    from harness import _C09_io
+    from exactly_lib.section_document.element_parsers.token_stream import TokenStream, LookAheadState
+    from exactly_lib.symbol import symbol_syntax
+    n = stubs.selftest_sym_string_io()
+    n += _C09_io.selftest()
+    # every character of every alphabet: the finite name-character set agrees with str.isalnum
+    chars = set(K1_ALPHABET + K1_ALPHABET_U + K2_ALPHABET_U + 'ABLEx<>:)=' + ''.join(HOLES.values()))
+    for c in sorted(chars):
+        if ref.is_name_char(c) != (c.isalnum() or c == '_'):
+            raise AssertionError('NAME_CHARS disagrees with str.isalnum on %r' % c)
+        n += 1
+    # hole alphabets and their descriptions are in step
+    assert set(HOLES) == set(HOLE_NAMES)
+
+    # reference tokenizer vs the real TokenStream, outside the `#` region
+    def real_tokens(src):
+        ts = TokenStream(src)
+        out = []
+        while ts.look_ahead_state is LookAheadState.HAS_TOKEN:
+            out.append((ts.head.string, ts.head.source_string))
+            ts.consume()
+        return out, ts.look_ahead_state is LookAheadState.SYNTAX_ERROR
+
+    for alphabet, maxlen in (('a "\'\n', 5), (K1_ALPHABET, 4 if tier == 'quick' else 5)):
+        for ln in range(maxlen + 1):
+            for tup in itertools.product(alphabet, repeat=ln):
+                src = ''.join(tup)
+                if ref.has_unquoted(src, '#'):
+                    continue
+                toks, err = ref.tokenize(src)
+                want = ([(t.string, src[t.start:t.end]) for t in toks], err is not None)
+                got = real_tokens(src)
+                if got != want:
+                    raise AssertionError('reference tokenizer differs from TokenStream on %r: %r vs %r' % (src, want, got))
+                n += 1
+    # reference splitter vs symbol_syntax.split, and the properties the fragmentation must have
+    ref_re = re.compile(r'@\[[A-Za-z0-9_\xe9]+\]@')
+    for alphabet, maxlen in (('@[]a_-', 6 if tier == 'quick' else 7), (K2_ALPHABET_U, 5)):
+        for ln in range(maxlen + 1):
+            for tup in itertools.product(alphabet, repeat=ln):
+                t = ''.join(tup)
+                frs = ref.split_refs(t)
+                if frs != _frag_list(symbol_syntax.split(t)):
+                    raise AssertionError('reference splitter differs from symbol_syntax.split on %r' % t)
+                if ref.render_refs(frs) != t:
+                    raise AssertionError('split_refs does not round-trip on %r' % t)
+                prev_const = False
+                for is_sym, x in frs:
+                    if is_sym:
+                        assert x != '' and all(ref.is_name_char(c) for c in x), t
+                    else:
+                        assert x != '' and not prev_const and not ref_re.search(x), t
+                    prev_const = not is_sym
+                n += 1
+    # documented examples
+    vals = {'S': 'VAL'}
+    for src, want in (('a', 'a'), ('"a b"', 'a b'), ("'a b'", 'a b'), ('a"b c"\'d\'', 'ab cd'), ('@[S]@', 'VAL'),
+                      ('"x @[S]@"', 'x VAL'), ("'@[S]@'", '@[S]@'), ('a#b', 'a#b'), ('\\a', '\\a'),
+                      ('pre@[S]@\'@[S]@\'"@[S]@"', 'preVAL@[S]@VAL')):
+        toks, err = ref.tokenize(src)
+        assert err is None and len(toks) == 1, src
+        if ref.denotation(toks[0].parts, vals) != want:
+            raise AssertionError('reference denotation of %r: %r' % (src, ref.denotation(toks[0].parts, vals)))
+        n += 1
+    assert ref.tokenize('a "b')[1] == 2 and ref.tokenize("a 'b c")[1] == 2
+    assert ref.heredoc(['a', ' E', 'E', 'E'], 'E') == 2 and ref.heredoc(['a'], 'E') == -1
+    return n
 
 
 ASSUMPTIONS = [
